@@ -22,6 +22,15 @@ class Al(DataClassDictMixin):
         aliases = {"b": "B"}
 
 @dataclass
+class Al2(DataClassDictMixin):
+    a: int = field(metadata={"alias": "A"})
+    b: int = field(default=1, metadata={"alias": "B"})
+    c: Annotated[int, Alias("CA")] = 2
+    class Config(BaseConfig):
+        aliases = {"a": "cfgA", "b": "cfgB", "c": "cfgC", "d": "cfgD"}
+    d: int = 3
+
+@dataclass
 class TwoGen(DataClassDictMixin):
     x: Gen[int]
     y: Gen[str]
@@ -36,7 +45,8 @@ class TwoSame:
     p: SameA
     q: SameB
 '''
-EXTRA = [("al", "Al"), ("twogen", "TwoGen"), ("twosame", "TwoSame"), ("dict_int", "Dict[int, str]"),
+EXTRA = [("al", "Al"), ("al2", "Al2"), ("lit_1_true", "Literal[1, True]"), ("lit_0_false", "Literal[0, False, 'off']"),
+         ("lit_true_1", "Literal[True, 1, 2]"), ("twogen", "TwoGen"), ("twosame", "TwoSame"), ("dict_int", "Dict[int, str]"),
          ("dict_bool", "Dict[bool, int]"), ("dict_float", "Dict[float, int]"), ("dict_enum", "Dict[Num, int]"),
          ("tstar3", "Tuple[int, Unpack[Tuple[str, str]], float]"), ("tstar4", "Tuple[Unpack[Tuple[int, ...]], str]"),
          ("nt_list", "List[NT]"), ("opt_gen", "Optional[Gen[int]]"), ("lit_bytes", "Literal[b'x', 'y']")]
